@@ -236,6 +236,14 @@ def run_harness(name, h, worker, tier):
     with open(os.path.join(WORK, "logs", name + ".log"), "w") as f:
         f.write(out)
     if res["verdict"] in ("SUCCESSFUL", "FAILED"):
+        # the result belongs to the text that was compiled: if the tree or the harness changed while the
+        # verifier ran, it is neither stored nor believed
+        before = tree_hash(h["module"])
+        _HASH_CACHE.clear()
+        if tree_hash(h["module"]) != before:
+            res["verdict"] = "ERROR"
+            res["tree_changed_during_run"] = True
+            return name, res
         os.makedirs(os.path.dirname(cp), exist_ok=True)
         res["ran_at"] = time.strftime("%Y-%m-%dT%H:%M:%SZ", time.gmtime())
         json.dump(res, open(cp + ".tmp", "w"))
@@ -546,7 +554,7 @@ def decide(pid, tier, seed):
         expected = obligations_of(pid, n, e)
         solver_time[n] = r.get("time")
         if r["verdict"] in ("TIMEOUT", "ERROR", "NONE"):
-            why = "time-out" if r["verdict"] == "TIMEOUT" else ("harness no longer compiles against this tree (lost anchor)" if r.get("compile_error") else ("solver ran out of memory / was stopped by the memory watchdog" if r.get("backend_crashed") else "verifier error"))
+            why = "time-out" if r["verdict"] == "TIMEOUT" else ("harness no longer compiles against this tree (lost anchor)" if r.get("compile_error") else ("solver ran out of memory / was stopped by the memory watchdog" if r.get("backend_crashed") else ("sources changed while the verifier ran" if r.get("tree_changed_during_run") else "verifier error")))
             undecided.append(f"{n}: {why}")
             continue
         tagged, auto_fail, covers, unwind_fail, unsupported, n_auto = split_checks(r)
